@@ -16,12 +16,12 @@ Proof.
 Qed.
 
 (* ---- the decoder table --------------------------------------------------------------------------- *)
-(* what enabling the name [d] binds it to *)
-Definition slot_of_name (d : string) : slot :=
-  if String.eqb d s_deflate then available s_zlib else available d.
+(* what enabling the name [d] binds it to; None = the name has no decoder and is left out *)
+Definition slot_of_name (d : string) : option slot :=
+  if String.eqb d s_deflate then Some (available_or_nil s_zlib) else available d.
 
 (* the custom decoder registered last under key [k] *)
-Fixpoint clookup (cs : list (string * N)) (k : string) : option N :=
+Fixpoint clookup {A} (cs : list (string * A)) (k : string) : option A :=
   match cs with
   | [] => None
   | (k', i) :: r => match clookup r k with
@@ -30,21 +30,29 @@ Fixpoint clookup (cs : list (string * N)) (k : string) : option N :=
                     end
   end.
 
+Lemma tget_enable_one m d k :
+  tget (enable_one m d) k =
+  if String.eqb k d then match slot_of_name k with Some sl => Some sl | None => tget m k end else tget m k.
+Proof.
+  unfold enable_one, slot_of_name.
+  destruct (String.eqb_spec d s_deflate) as [->|Nd].
+  - change (available s_deflate) with (@None slot). unfold tset; simpl.
+    destruct (String.eqb_spec k s_deflate) as [->|]; reflexivity.
+  - destruct (String.eqb_spec k d) as [->|Nk].
+    + destruct (String.eqb_spec d s_deflate); [contradiction|].
+      destruct (available d); simpl; rewrite ?String.eqb_refl; reflexivity.
+    + destruct (available d); simpl; [|reflexivity].
+      destruct (String.eqb_spec k d); [contradiction|reflexivity].
+Qed.
+
 Lemma tget_enable l : forall m k,
-  tget (fold_left enable_one l m) k = if str_mem k l then Some (slot_of_name k) else tget m k.
+  tget (fold_left enable_one l m) k =
+  if str_mem k l then match slot_of_name k with Some sl => Some sl | None => tget m k end else tget m k.
 Proof.
   induction l as [|d l IH]; intros m k; simpl; [reflexivity|].
-  rewrite IH. destruct (str_mem k l) eqn:El.
-  - now rewrite orb_true_r.
-  - rewrite orb_false_r. unfold enable_one, slot_of_name, tset.
-    destruct (String.eqb_spec k d) as [->|N].
-    + destruct (String.eqb d s_deflate) eqn:Ed; simpl.
-      * apply String.eqb_eq in Ed. subst. reflexivity.
-      * now rewrite String.eqb_refl.
-    + destruct (String.eqb d s_deflate) eqn:Ed; simpl.
-      * apply String.eqb_eq in Ed. subst d.
-        destruct (String.eqb_spec k s_deflate); [contradiction|reflexivity].
-      * destruct (String.eqb_spec k d); [contradiction|reflexivity].
+  rewrite IH, tget_enable_one. destruct (str_mem k l) eqn:El.
+  - rewrite orb_true_r. destruct (slot_of_name k); [reflexivity|]. destruct (String.eqb k d); reflexivity.
+  - rewrite orb_false_r. reflexivity.
 Qed.
 
 Lemma tget_custom cs : forall m k,
@@ -60,11 +68,15 @@ Lemma tget_decoders sc k :
   tget (decoders sc) k =
   match clookup sc.(s_custom) k with
   | Some i => Some (SCustom i)
-  | None => if str_mem k (eff_algs sc) then Some (slot_of_name k) else None
+  | None => if str_mem k (eff_algs sc) then slot_of_name k else None
   end.
-Proof. unfold decoders. rewrite tget_custom, tget_enable. reflexivity. Qed.
+Proof.
+  unfold decoders. rewrite tget_custom, tget_enable. simpl.
+  destruct (clookup (s_custom sc) k); [reflexivity|].
+  destruct (str_mem k (eff_algs sc)); [|reflexivity]. destruct (slot_of_name k); reflexivity.
+Qed.
 
-Lemma clookup_none cs k : clookup cs k = None <-> ~ In k (map fst cs).
+Lemma clookup_none {A} (cs : list (string * A)) k : clookup cs k = None <-> ~ In k (map fst cs).
 Proof.
   induction cs as [|[k' i] cs IH]; simpl; [tauto|].
   destruct (clookup cs k) eqn:E.
@@ -75,17 +87,37 @@ Proof.
     + split; [|reflexivity]. intros _ [H|H]; [congruence|]. now apply (proj1 IH).
 Qed.
 
-(* a name that is neither in the enabled list nor registered as a custom decoder has no decoder *)
-Lemma tget_decoders_none sc k :
-  tget (decoders sc) k = None <-> (~ In k (eff_algs sc) /\ ~ In k (map fst sc.(s_custom))).
+(* the names that have a decoder are exactly the seven names of the default list *)
+Lemma slot_of_name_none k : slot_of_name k = None <-> ~ In k default_algs.
 Proof.
-  rewrite tget_decoders, <- clookup_none, <- str_mem_false.
-  destruct (clookup (s_custom sc) k); destruct (str_mem k (eff_algs sc)); split; try tauto; try discriminate;
-    intros [? ?]; discriminate.
+  split.
+  - intros H Hin. simpl in Hin.
+    destruct Hin as [<-|[<-|[<-|[<-|[<-|[<-|[<-|[]]]]]]]]; vm_compute in H; discriminate H.
+  - intros H. unfold slot_of_name, available.
+    repeat match goal with |- context [String.eqb k ?s] => destruct (String.eqb_spec k s) as [->|?] end;
+      try reflexivity; exfalso; apply H; simpl; auto 10.
+Qed.
+
+(* ... and enabling a name never binds a nil func, nor a custom decoder *)
+Lemma slot_of_name_some k sl : slot_of_name k = Some sl -> sl = SIdent \/ exists c, sl = SCodec c.
+Proof.
+  unfold slot_of_name, available_or_nil, available.
+  repeat match goal with |- context [String.eqb k ?s] => destruct (String.eqb_spec k s) as [->|?] end;
+    simpl; intros [= <-] || discriminate; eauto.
+Qed.
+
+(* a name has no decoder iff it is not a custom key and (is not enabled or has no available decoder) *)
+Lemma tget_decoders_none sc k :
+  tget (decoders sc) k = None <->
+  (~ In k (map fst sc.(s_custom)) /\ (~ In k (eff_algs sc) \/ ~ In k default_algs)).
+Proof.
+  rewrite tget_decoders, <- clookup_none, <- str_mem_false, <- slot_of_name_none.
+  destruct (clookup (s_custom sc) k); destruct (str_mem k (eff_algs sc)); destruct (slot_of_name k);
+    split; try tauto; try discriminate; intros [? [?|?]]; discriminate.
 Qed.
 
 (* the writer chosen for a configured type and the reader bound to the same name are the same codec *)
-Lemma writer_reader_agree t c : writer_codec t = Some c -> slot_of_name t = SCodec c.
+Lemma writer_reader_agree t c : writer_codec t = Some c -> slot_of_name t = Some (SCodec c).
 Proof.
   unfold writer_codec.
   destruct (String.eqb_spec t s_gzip) as [->|]; [intros [= <-]; reflexivity|].
@@ -220,7 +252,7 @@ Section Codec.
   Lemma limit_exact_decoded_l sc w c d e :
     clookup sc.(s_custom) (hget (w_ce w)) = None ->
     In (hget (w_ce w)) (eff_algs sc) ->
-    slot_of_name (hget (w_ce w)) = SCodec c ->
+    slot_of_name (hget (w_ce w)) = Some (SCodec c) ->
     dec c (max_bytes (eff_max sc) (w_body w, E_EOF)) = DStream (d, e) ->
     (Z.of_nat (List.length d) > eff_max sc)%Z ->
     server sc w = Handled [] (-1) (firstn (Z.to_nat (eff_max sc)) d, E_TOOLARGE) /\
@@ -243,7 +275,7 @@ Section Codec.
   Proof.
     intros Hc He Hin Hlen. pose proof (eff_max_pos sc) as HL.
     unfold Model.server. rewrite tget_decoders, Hc, He. apply str_mem_In in Hin. rewrite Hin.
-    change (slot_of_name s_empty) with SIdent. simpl.
+    change (slot_of_name s_empty) with (Some SIdent). simpl.
     destruct (max_bytes_over (eff_max sc) (w_body w, E_EOF)) as [E1 E2]; [lia|exact Hlen|].
     simpl in E1, E2. rewrite E1. split; [reflexivity|exact E2].
   Qed.
@@ -259,7 +291,8 @@ Section Codec.
 
   (* ---- rejection -------------------------------------------------------------------------------- *)
   Lemma unsupported_rejected_l sc w :
-    ~ In (hget (w_ce w)) (eff_algs sc) -> ~ In (hget (w_ce w)) (map fst sc.(s_custom)) ->
+    ~ In (hget (w_ce w)) (map fst sc.(s_custom)) ->
+    (~ In (hget (w_ce w)) (eff_algs sc) \/ ~ In (hget (w_ce w)) default_algs) ->
     server sc w = Rejected 400.
   Proof.
     intros H1 H2. unfold Model.server.
@@ -268,7 +301,7 @@ Section Codec.
 
   Lemma init_error_rejected_l sc w c :
     clookup sc.(s_custom) (hget (w_ce w)) = None -> In (hget (w_ce w)) (eff_algs sc) ->
-    slot_of_name (hget (w_ce w)) = SCodec c ->
+    slot_of_name (hget (w_ce w)) = Some (SCodec c) ->
     dec c (max_bytes (eff_max sc) (w_body w, E_EOF)) = DInitErr ->
     server sc w = Rejected 400.
   Proof.
@@ -276,13 +309,50 @@ Section Codec.
     unfold Model.server. rewrite tget_decoders, Hc, Hin, Hs. simpl. now rewrite Hd.
   Qed.
 
-  (* an enabled name without an available decoder binds a nil func: the call panics *)
-  Lemma nil_decoder_panics_l sc w :
-    clookup sc.(s_custom) (hget (w_ce w)) = None -> In (hget (w_ce w)) (eff_algs sc) ->
-    slot_of_name (hget (w_ce w)) = SNil -> server sc w = Panicked.
+  (* ServeHTTP calls a nil func (and panics) exactly when the encoding's decoder is a custom decoder
+     registered as nil: WithDecoder(key, nil).  No entry of the enabled list can cause it. *)
+  Lemma panics_iff_nil_custom_l sc w :
+    server sc w = Panicked <-> clookup sc.(s_custom) (hget (w_ce w)) = Some None.
   Proof.
-    intros Hc Hin Hs. apply str_mem_In in Hin.
-    unfold Model.server. rewrite tget_decoders, Hc, Hin, Hs. reflexivity.
+    unfold Model.server. rewrite tget_decoders.
+    destruct (clookup (s_custom sc) (hget (w_ce w))) as [[i|]|]; simpl.
+    - destruct (cdec i _) as [| |s']; split; intros; discriminate.
+    - tauto.
+    - destruct (str_mem (hget (w_ce w)) (eff_algs sc)); [|split; intros; discriminate].
+      destruct (slot_of_name (hget (w_ce w))) as [sl|] eqn:E; [|split; intros; discriminate].
+      destruct (slot_of_name_some _ _ E) as [->|[c ->]]; simpl.
+      + split; intros; discriminate.
+      + destruct (dec c _) as [| |s']; split; intros; discriminate.
+  Qed.
+
+  Lemma no_panic_without_nil_custom_l sc w :
+    (forall k, ~ In (k, None) sc.(s_custom)) -> server sc w <> Panicked.
+  Proof.
+    intros H Hp. apply panics_iff_nil_custom_l in Hp.
+    assert (G : forall (cs : list (string * option N)) k v, clookup cs k = Some v -> In (k, v) cs).
+    { induction cs as [|[k' i] cs IH]; simpl; [discriminate|]. intros k v.
+      destruct (clookup cs k) eqn:E.
+      - intros [= <-]. right. now apply IH.
+      - destruct (String.eqb_spec k k') as [->|]; [|discriminate]. intros [= <-]. now left. }
+    exact (H _ (G _ _ _ Hp)).
+  Qed.
+
+  (* the handler runs only for a non-nil custom decoder, or for a name that is BOTH in the enabled list
+     and one of the seven names with a decoder *)
+  Lemma handler_decoder_origin_l sc w ce cl s :
+    server sc w = Handled ce cl s ->
+    (exists i, clookup sc.(s_custom) (hget (w_ce w)) = Some (Some i)) \/
+    (clookup sc.(s_custom) (hget (w_ce w)) = None /\ In (hget (w_ce w)) (eff_algs sc) /\ In (hget (w_ce w)) default_algs).
+  Proof.
+    unfold Model.server. rewrite tget_decoders.
+    destruct (clookup (s_custom sc) (hget (w_ce w))) as [[i|]|]; simpl.
+    - intros _. left. now exists i.
+    - discriminate.
+    - destruct (str_mem (hget (w_ce w)) (eff_algs sc)) eqn:Ea; [|discriminate].
+      destruct (slot_of_name (hget (w_ce w))) as [sl|] eqn:E; [|discriminate].
+      intros _. right. split; [reflexivity|]. split; [exact (proj1 (str_mem_In _ _) Ea)|].
+      destruct (str_mem (hget (w_ce w)) default_algs) eqn:Ed; [exact (proj1 (str_mem_In _ _) Ed)|].
+      apply str_mem_false in Ed. apply slot_of_name_none in Ed. congruence.
   Qed.
 
   (* ---- pass-through ------------------------------------------------------------------------------ *)
@@ -293,7 +363,7 @@ Section Codec.
   Proof.
     intros He Hin Hc Hlen. apply str_mem_In in Hin.
     unfold Model.server. rewrite tget_decoders, He, Hc, Hin.
-    change (slot_of_name s_empty) with SIdent. simpl.
+    change (slot_of_name s_empty) with (Some SIdent). simpl.
     now rewrite max_bytes_fits by exact Hlen.
   Qed.
 
@@ -422,7 +492,7 @@ Section Codec.
   Proof.
     pose proof (eff_max_pos sc) as HL. cbv zeta.
     unfold Model.server, lserver. destruct (tget (decoders sc) (hget (w_ce w))) as [sl|]; [|reflexivity].
-    destruct sl as [| |c|i]; simpl.
+    destruct sl as [| |c|[i|]]; simpl.
     - reflexivity.
     - rewrite labs_max_bytes by lia. reflexivity.
     - destruct (dec c _) as [| |s']; simpl; try reflexivity.
@@ -431,5 +501,6 @@ Section Codec.
     - destruct (cdec i _) as [| |s']; simpl; try reflexivity.
       + rewrite labs_max_bytes by lia. reflexivity.
       + rewrite labs_max_bytes by lia. reflexivity.
+    - reflexivity.
   Qed.
 End Codec.
